@@ -203,6 +203,9 @@ func checkC17(c *Ctx) {
 	// (no special case that re-bases it on the handler's initial day state)
 	ruleGlonassResultShape(c, "C17-R4")
 	c.MinInstances("C17-R4", 1)
+	// R5: the week state is seeded on each constellation's own fixed-offset time scale (shared with C06-S7)
+	checkSeedTimeBase(c, "C17-R5")
+	c.MinInstances("C17-R5", 4)
 	c.MinInstances("C17-R1", 5)
 	c.MinInstances("C17-R2", 2)
 	c.MinInstances("C17-R3", 4)
